@@ -152,3 +152,26 @@ ALLOC_RULES = [
     (re.compile(r'\b([A-Za-z_][A-Za-z0-9_.]*)\.resize\('), lambda m: 'vec_resize_bounded(%s, ' % mut_ref(m, m.group(1)), None, 'R-ALLOC Vec::resize'),
     (re.compile(r'Vec::(?:<([^>]*)>::)?with_capacity\('), lambda m: ('vec_with_capacity_bounded::<%s>(' % m.group(1)) if m.group(1) else 'vec_with_capacity_bounded(', None, 'R-ALLOC Vec::with_capacity'),
 ]
+
+
+def tag_enums():
+    """R5 (reduced): the two tag enums are extracted verbatim from src/constants.rs (explicit
+    discriminants included); only the `Tag` impls are restated against the prelude trait - their
+    body is the crate's own `*self as u32`."""
+    return consts('HEADER_IMAGE', 'HEADER_SIGNATURES', 'HEADER_IMMUTABLE', 'HEADER_REGIONS', 'HEADER_I18NTABLE',
+                  'HEADER_SIGBASE', 'HEADER_SIGTOP', 'HEADER_TAGBASE') + [
+        Raw('#[derive(Clone, Copy)]\n#[repr(u32)]\n#[allow(non_camel_case_types)]\n'),
+        Decl(CONST, 'enum', 'IndexTag'),
+        Raw('#[derive(Clone, Copy)]\n#[repr(u32)]\n#[allow(non_camel_case_types)]\n'),
+        Decl(CONST, 'enum', 'IndexSignatureTag'),
+        Raw('''
+impl Tag for IndexTag {
+    open spec fn spec_to_u32(&self) -> u32 { *self as u32 }
+    fn to_u32(&self) -> u32 { *self as u32 }
+}
+impl Tag for IndexSignatureTag {
+    open spec fn spec_to_u32(&self) -> u32 { *self as u32 }
+    fn to_u32(&self) -> u32 { *self as u32 }
+}
+''', 'Tag impls (body as in src/constants.rs)'),
+    ]
